@@ -666,7 +666,7 @@ func checkC18(r *Run) {
 	for i := 0; i < nr; i++ {
 		i := i
 		files = append(files, func() *descgen.Entry {
-			return descgen.Random(r.Seed, i, descgen.RandOpt{NoTemporal: true, NoCustom: true})
+			return descgen.Random(r.Seed, i, descgen.RandOpt{NoTemporal: true, NoCustom: true, Plain: true})
 		})
 	}
 	// the temporal faults come in two flavours: neither type configured, or only the other one
